@@ -47,9 +47,11 @@ func (w *W) Addr(scheme string) string {
 }
 
 func (w *W) Op(format string, a ...interface{}) {
+	line := fmt.Sprintf("t=%v ", w.Now()) + fmt.Sprintf(format, a...)
 	if len(w.Prog) < 400 {
-		w.Prog = append(w.Prog, fmt.Sprintf("t=%v ", w.Now())+fmt.Sprintf(format, a...))
+		w.Prog = append(w.Prog, line)
 	}
+	w.Note(line)
 }
 
 func (w *W) SetShape(k string, v interface{}) { w.Shape[k] = v }
